@@ -250,7 +250,14 @@ def _run(res, rng, tier, driver, work):
         if i % 3 == 0:
             hist = [f"1;255;0;0;17;{version}\n", "1;0;0;0;6;t\n", "1;0;1;0;0;20\n"] + hist
         cut = rng.randrange(3 if i % 3 == 0 else 0, len(hist) + 1)
-        tail = hist[cut:] + ([] if rng.random() < 0.5 else ["255;255;3;0;3;\n"])
+        again = None
+        if i % 3 == 1 and i % 2 == 0:
+            # between the two saves nothing but a node and a child that present themselves again: the node with
+            # the same type and another library version, the child with the same type and another description
+            hist = [f"1;255;0;0;17;{version}\n", "1;0;0;0;6;Relay\n"] + hist[:cut]
+            cut = len(hist)
+            again = [[f"1;255;0;0;17;{'2.3.2' if version != '2.3.2' else '2.2.0'}\n"], ["1;0;0;0;6;Relä köket ✓\n"]][(i // 6) % 2]
+        tail = again if again is not None else hist[cut:] + ([] if rng.random() < 0.5 else ["255;255;3;0;3;\n"])
         try:
             for line in hist[:cut]:
                 try:
